@@ -8,8 +8,17 @@
     message file is an input of the model (`plan`, one number per `open_read` call):
       0 regular file owned by the queue user, 1 open fails, 2 fstat fails, 3/7 not a regular file,
       4 foreign owner, 5 pipe() fails, 6 fork() fails, 8 not regular and foreign.
-  * a delivery slot is `none` (unused) or `some out` (child running, `out` = `d[i].output` so far).
-    `childOut` / `childExit` are the two things that can happen on a child's pipe.
+  * a delivery slot is `none` (unused) or `some out` (`d[i].used`, `out` = `d[i].output` so far).
+    `dead[i] = some wstat` while the child of slot `i` has been reaped by `sigchld()` (`d[i].pid = 0`,
+    `d[i].wstat = wstat`) but the EOF on its pipe has not been read yet — the slot is still in use
+    and still owes its report.
+  * the events of the select loop (`Op`): bytes on descriptor 0, EOF on descriptor 0, a child's
+    output, a child's death seen as SIGCHLD + EOF in one wake-up (`exit`), or in two steps: the
+    handler runs and `select` returns -1/EINTR (`reap`), later the EOF on the pipe is read (`peof`).
+  * the exit test at the top of the main loop is `exited`: end of input seen AND no slot in use
+    (reaped-but-unreported slots count as in use).  Once it holds no event has any effect
+    (`Props.C18_spawn_exit`), so `orun` does not need to stop; `consumed` is the number of events of
+    a script the program gets to see before it leaves, compared with the real program by the driver.
   * observable events: `openRead` (the only `open` of the program), `spawnCall` (`spawn()` was called
     — the only place a child is created), `report` (delnum byte, body, NUL written to descriptor 1),
     `hello` (the `auto_spawn` byte written at start-up).
@@ -46,6 +55,7 @@ structure St where
   slots : List (Option Bytes) := List.replicate Nq.Gen.auto_spawn none
   plan : List Nat := []
   reading : Bool := true
+  dead : List (Option Nat) := List.replicate Nq.Gen.auto_spawn none
   deriving Repr
 
 /-! The fixed texts of `docmd()` (`E_TOOBIG` …; first byte = report letter) come from `Nq.Gen.SpawnTexts`,
@@ -181,13 +191,36 @@ def reportBody (k : Kind) (wstat : Nat) (out : Bytes) : Bytes :=
 inductive Op
   | cmd (bytes : Bytes)                 -- bytes readable on descriptor 0
   | out (slot : Nat) (bytes : Bytes)    -- the child of `slot` wrote `bytes` (≤ 128)
-  | exit (slot : Nat) (wstat : Nat)     -- the child of `slot` died; SIGCHLD, then EOF on its pipe
+  | exit (slot : Nat) (wstat : Nat)     -- the child of `slot` died; SIGCHLD, then EOF on its pipe, one wake-up
+  | eof                                 -- EOF on descriptor 0 (`flagreading = 0`)
+  | reap (slot : Nat) (wstat : Nat)     -- the child of `slot` died; SIGCHLD handler ran, `select` returned -1
+  | peof (slot : Nat)                   -- EOF on the pipe of `slot` whose child had been reaped before
   deriving Repr
+
+def usedCount (st : St) : Nat := (st.slots.filter Option.isSome).length
 
 def childExit (k : Kind) (st : St) (slot wstat : Nat) : St × List Ev :=
   match st.slots.getD slot none with
   | none => (st, [])
   | some out => ({ st with slots := st.slots.set slot none }, [.report slot (reportBody k wstat out)])
+
+/-- `sigchld()` for the live child of `slot`: `d[slot].wstat = wstat; d[slot].pid = 0`; the slot stays in use -/
+def reap (st : St) (slot wstat : Nat) : St :=
+  match st.slots.getD slot none, st.dead.getD slot none with
+  | some _, none => { st with dead := st.dead.set slot (some wstat) }
+  | _, _ => st
+
+/-- the `r == 0` branch of the main loop for a slot whose child was reaped earlier: the report is
+written with the wait status stored by the handler, the slot is released -/
+def pipeEof (k : Kind) (st : St) (slot : Nat) : St × List Ev :=
+  match st.slots.getD slot none, st.dead.getD slot none with
+  | some out, some ws =>
+      ({ st with slots := st.slots.set slot none, dead := st.dead.set slot none },
+       [.report slot (reportBody k ws out)])
+  | _, _ => (st, [])
+
+/-- end of input on descriptor 0 (`flagreading = 0`) -/
+def stopReading (st : St) : St := { st with reading := false }
 
 def ostep (k : Kind) (st : St) : Op → St × List Ev
   | .cmd bytes => if st.reading then cfeed st bytes else (st, [])
@@ -195,7 +228,10 @@ def ostep (k : Kind) (st : St) : Op → St × List Ev
       match st.slots.getD slot none with
       | none => (st, [])
       | some out => ({ st with slots := st.slots.set slot (some (accumulate k out bytes)) }, [])
-  | .exit slot wstat => childExit k st slot wstat
+  | .exit slot wstat => if (st.dead.getD slot none).isSome then (st, []) else childExit k st slot wstat
+  | .eof => (stopReading st, [])
+  | .reap slot wstat => (reap st slot wstat, [])
+  | .peof slot => pipeEof k st slot
 
 def orun (k : Kind) : St → List Op → St × List Ev
   | st, [] => (st, [])
@@ -204,17 +240,38 @@ def orun (k : Kind) : St → List Op → St × List Ev
       let r2 := orun k r.1 rest
       (r2.1, r.2 ++ r2.2)
 
-/-- end of the script: descriptor 0 reaches EOF, then every child still running exits with
-status 0, lowest slot first -/
+/-- the exit test at the top of the main loop: `if (!flagreading) { for (i …) if (d[i].used) break;
+if (i >= auto_spawn) _exit(0); }` — a slot whose child has been reaped but whose report has not been
+written yet is still `used` -/
+def exited (st : St) : Bool := !st.reading && usedCount st == 0
+
+/-- how many events of the script the program sees before the exit test succeeds -/
+def consumed (k : Kind) : St → List Op → Nat
+  | _, [] => 0
+  | st, op :: rest => if exited st then 0 else consumed k (ostep k st op).1 rest + 1
+
+/-- the bytes the program can have read from descriptor 0: those that arrive before its EOF -/
+def inputOf : List Op → Bytes
+  | [] => []
+  | .cmd b :: r => b ++ inputOf r
+  | .eof :: _ => []
+  | _ :: r => inputOf r
+
+/-- the end of a slot at the end of the script: a reaped child's pipe reaches EOF, a live child exits
+with status 0 -/
+def finish (k : Kind) (st : St) (i : Nat) : St × List Ev :=
+  match st.dead.getD i none with
+  | some _ => pipeEof k st i
+  | none => childExit k st i 0
+
+/-- end of the script: descriptor 0 reaches EOF (if it has not yet), then every slot still in use is
+finished, lowest slot first -/
 def drain (k : Kind) : St → Nat → Nat → St × List Ev
   | st, 0, _ => (st, [])
   | st, fuel + 1, i =>
-      let r := childExit k st i 0
+      let r := finish k st i
       let r2 := drain k r.1 fuel (i + 1)
       (r2.1, r.2 ++ r2.2)
-
-/-- end of input on descriptor 0 (`flagreading = 0`) -/
-def stopReading (st : St) : St := { st with reading := false }
 
 /-- one whole run of the program from state `st0` -/
 def runFrom (k : Kind) (st0 : St) (script : List Op) : St × List Ev :=
@@ -225,6 +282,7 @@ def runFrom (k : Kind) (st0 : St) (script : List Op) : St × List Ev :=
 /-- one whole run of the program -/
 def run (k : Kind) (plan : List Nat) (script : List Op) : St × List Ev := runFrom k { plan := plan } script
 
-def usedCount (st : St) : Nat := (st.slots.filter Option.isSome).length
+/-- the number of script events the program of `run` sees before it calls `_exit(0)` -/
+def runConsumed (k : Kind) (plan : List Nat) (script : List Op) : Nat := consumed k { plan := plan } script
 
 end Nq.Spawn
